@@ -709,6 +709,17 @@ def write_evidence(prop, tier, seed, parts, wall, violations, known_matched, bui
                                                 "for_this_property": [x["mutant"] for x in res if x.get("property") == prop and x.get("caught")]}
             except (ValueError, KeyError):
                 pass
+    # independently written seeded changes for this property (committed records, not re-run here)
+    sdir = os.path.join(HERE, "seeded")
+    if os.path.isdir(sdir):
+        ids = sorted(d for d in os.listdir(sdir) if d.startswith(prop + "-") and os.path.exists(os.path.join(sdir, d, "meta.json")))
+        regs = sorted((f for f in os.listdir(sdir) if f.startswith("REGRESSION-")), key=lambda f: os.path.getmtime(os.path.join(sdir, f)))
+        caught = None
+        if regs:
+            txt = open(os.path.join(sdir, regs[-1])).read()
+            caught = sum(1 for i in ids if ("('%s'," % i) in txt and "CAUGHT" in txt.split("('%s'," % i, 1)[1].split("\n", 1)[0])
+        cov["seeded_changes"] = {"written_for_this_property": len(ids), "caught_in_last_recorded_regression": caught,
+                                 "regression_record": ("seeded/" + regs[-1]) if regs else None}
     cov["build_s"] = build_s
     cov["repo_head"] = subprocess.run(["git", "-C", REPO, "rev-parse", "--short", "HEAD"], stdout=subprocess.PIPE, text=True).stdout.strip()
     cov["repo_dirty"] = bool(subprocess.run(["git", "-C", REPO, "status", "--porcelain", "--untracked-files=no"], stdout=subprocess.PIPE, text=True).stdout.strip())
